@@ -260,6 +260,13 @@ def probeLine (line : String) : String :=
       | "node.AddressFromNodeForInactiveAtKey" => sb (node.AddressFromNodeForInactiveAtKey (node.NodeForInactiveAtKey t a))
       | "plan.IDFromPlanForProviderKey" => sn (plan.IDFromPlanForProviderKey (plan.PlanForProviderKey a i))
       | "subscription.IDFromSubscriptionForInactiveAtKey" => sn (subscription.IDFromSubscriptionForInactiveAtKey (subscription.SubscriptionForInactiveAtKey t i))
+      | "session.IDFromSessionForNodeKey" => sn (session.IDFromSessionForNodeKey (session.SessionForNodeKey a i))
+      | "session.IDFromSessionForSubscriptionKey" => sn (session.IDFromSessionForSubscriptionKey (session.SessionForSubscriptionKey j i))
+      | "session.IDFromSessionForInactiveAtKey" => sn (session.IDFromSessionForInactiveAtKey (session.SessionForInactiveAtKey t i))
+      | "subscription.IDFromSubscriptionForNodeKey" => sn (subscription.IDFromSubscriptionForNodeKey (subscription.SubscriptionForNodeKey a i))
+      | "subscription.IDFromSubscriptionForPlanKey" => sn (subscription.IDFromSubscriptionForPlanKey (subscription.SubscriptionForPlanKey j i))
+      | "subscription.IDFromPayoutForAccountKey" => sn (subscription.IDFromPayoutForAccountKey (subscription.PayoutForAccountKey a i))
+      | "subscription.IDFromPayoutForNodeKey" => sn (subscription.IDFromPayoutForNodeKey (subscription.PayoutForNodeKey a i))
       | _ => "bad-case"
     | "key" =>
       let t := fint f "t"; let a := fbytes f "a"; let b := fbytes f "b"; let i := fnat f "i"; let j := fnat f "j"
